@@ -156,7 +156,11 @@ Main(u) == IF Path = "single" THEN u
            ELSE Order[CHOOSE i \in 1 .. Len(Order) : /\ MetaOf[Order[i]] = u
                                                       /\ \A j \in 1 .. i - 1 : MetaOf[Order[j]] # u]
 
-\* st has the extra field dead: the only worker gave up (BackoffError)
+\* The walker asks is_cached(main tile of the unit); the worker runs load_tile_coords(<<main>>).  A SourceError
+\* that leaves load_tile_coords is retried (exp_backoff, counted as one failed request) until the only worker
+\* gives up (dead: later units are queued but never processed); on the single-tile path a failed refresh of a
+\* tile that is still cached does not raise (the stale tile is "served"), so it costs one request and the walk
+\* goes on.  Units are disjoint and the clock stands still, so walking them in sequence is exact.
 RECURSIVE SeedWalk(_, _, _)
 SeedWalk(st, us, et) ==
   IF us = <<>> THEN st
